@@ -3,7 +3,7 @@
    [repo] = /repo as it is today; the refutations are histories /repo accepts (replayed by harness/c06.py). *)
 From Coq Require Import ZArith List String Bool.
 Import ListNotations.
-From TD Require Import Model.C06_Cache Proofs.C06_KeyP Proofs.C06_CacheP Proofs.C06_ReadP Proofs.C06_StepP Proofs.C06_WitnessP.
+From TD Require Import Model.C06_Cache Proofs.C06_KeyP Proofs.C06_CacheP Proofs.C06_ReadP Proofs.C06_StepP Proofs.C06_WitnessP Proofs.C06_FixedP.
 From TD Require Gen.C06_Sites.
 Open Scope string_scope.
 Open Scope list_scope.
@@ -141,6 +141,18 @@ Theorem C06_cache_sound_refuted_lazy_materialised :
   /\ stale_hit (run repo false w_lazy [ORead [] MFlattenKeys [] []; OInplace ["#0"; "x"] 9%Z]) [] MFlattenKeys [] [].
 Proof. exact refuted_lazy_materialised. Qed.
 Print Assumptions C06_cache_sound_refuted_lazy_materialised.
+
+(* -------- what changes when the repairs land: with [fix_rebind] and [fix_meta] (erase the caches of the node, of the nodes above it
+   and of its subtree wherever ignore_lock=True rebinds an entry or a names / batch_size setter runs) the FULL statement holds for
+   every history over trees of TensorDicts — non-tensor promotion, make_memmap*, names and batch_size assignment included
+   (memmap_() on a locked tree excluded: that is the lock graph's defect D7/D61) *)
+Theorem C06_cache_sound_if_repaired : forall fx U hk s ops,
+  fixed fx -> objs_consistent U -> Good U s -> Forall (permitted_op U) ops ->
+  forall pre p m a k post, ops = pre ++ ORead p m a k :: post ->
+  forall acc v b, snd (read hk (run fx hk s pre) p m a k) = Some (acc, v, b) ->
+  exists n, find_node (run fx hk s pre) p = Some n /\ v = fresh (run fx hk s pre) n m a k.
+Proof. exact cache_sound_fixed. Qed.
+Print Assumptions C06_cache_sound_if_repaired.
 
 (* -------- translated table (harness/tr_c06.py): every @cache site of /repo's current source is a method the model knows
    (or is listed as not modelled), and every site the model relies on is still decorated *)
